@@ -264,6 +264,15 @@ def check_pairing(model, rep):
     rm = run_model(model)
     mod = rm.member.module
     seen = set()
+    # "one recorded sample per recorded instant": the axis may only grow, one instant per recorded step - an instant popped,
+    # inserted or overwritten (on any path: after a break, in a finally block ...) leaves the lists one sample off
+    tw = set()
+    for rp in rm.paths:
+        for ev in [e for b in rp.bodies for e in b.events] + list(rp.pre) + list(rp.post):
+            if ev.kind == 'time-write' and ev.text not in tw:
+                tw.add(ev.text)
+                rep.violation('C17.pairing', 'Solver.run:axis-rewritten', f'`{ev.text}` removes or rewrites a recorded instant while the samples of that '
+                              f'instant stay in the elements\' lists', f'{mod}:{ev.lineno}')
     for name, rp, events in rm.instants():
         tags = [classify(rm, ev) for ev in events]
         times = [i for i, ev in enumerate(events) if ev.kind == 'time']
